@@ -1105,7 +1105,9 @@ class RegistryGetTable(PyContract):
                 eng.oblige(st, 'IV', 'lockset:_NODETYPE_REGISTRY-read-under-__REGISTRY_LOCK', z3.BoolVal(False), line)
             return [(st, SeqV(self.H, lambda k: handler_at(k)))]
         if isinstance(f, BoundV) and isinstance(f.obj, OpaqueV) and f.obj.tag == 'module:_C' and f.name == 'is_dict_insertion_ordered':
-            eng.oblige(st, 'III', 'mode-is-asked-for-the-effective-namespace', ns_str(args[0]) == self.eff(st), line)
+            # the binding's parameter defaults to the global namespace ('')
+            asked = ns_str(args[0]) if args else (ns_str(kwargs['registry_namespace']) if 'registry_namespace' in kwargs else EMPTY)
+            eng.oblige(st, 'III', 'mode-is-asked-for-the-effective-namespace', asked == self.eff(st), line)
             return [(st, self.ordered)]
         return None
 
